@@ -217,7 +217,8 @@ def quad_knots(cut_id, widths, heights, bin_left_cdf, bin_locations):
         fr, new = memo_cut(ctx, cut_id, flat, lambda: [[fresh(n) for _ in r] for n, r in zip(("qw", "qh", "qc", "ql"), real)])
         if new:
             for nm, f in facts(*real):
-                ctx.oblige("cut-lemma", f, label=f"{cut_id}.{nm}")
+                # the trapezoid areas sum to one: a rational-function identity modulo the definitions of the area cut (ring tactic first)
+                ctx.oblige("cut-lemma", f, label=f"{cut_id}.{nm}", meta={"tactic": "ring"} if nm.startswith("area") else None)
             ctx.hard_cut([(a, b) for frs, rs in zip(fr, real) for a, b in zip(frs, rs)], [f for _, f in facts(*fr)])
         for o, v in zip(outs, fr):
             o[idx] = v
